@@ -99,5 +99,11 @@ func init() {
 		transition("fromOpenToHalfOpen", "cb_fromOpenToHalfOpen"),
 		transition("fromHalfOpenToOpen", "cb_fromHalfOpenToOpen"),
 		transition("fromHalfOpenToClosed", "cb_fromHalfOpenToClosed"),
+		// the exit hook registered by fromOpenToHalfOpen: rollback HalfOpen -> Open of a blocked probe
+		target{Dir: "core/circuitbreaker", Func: "circuitBreakerBase.fromOpenToHalfOpen", Name: "cb_rollbackHook", Lit: 1,
+			Hints: map[string]hint{"ctx.IsBlocked()": {"blocked", "bool"}},
+			Acts: map[string]act{
+				"b.state.cas":                {Tag: brkCas, Keep: []int{0, 1}, Ret: hint{"cas_ok", "bool"}},
+				"listener.OnTransformToOpen": {Tag: brkNotifyOpen, Keep: []int{0, 2}}}},
 	)
 }
